@@ -247,6 +247,14 @@ FPlan generate(const std::string &prop, const std::string &tier, uint64_t seed)
                                    "my app.log", "app(1).log", "app[x].log", "\xd0\xb6\xd1\x83\xd1\x80\xd0\xbd\xd0\xb0\xd0\xbb.log", "APP.LOG",
                                    "app.log.1", "app..log" };
     p.base = pick(r, bases);
+    {
+        // base names that contain QString::arg() place markers (added later, drawn from a stream of their own so
+        // that every other choice of every existing plan stays what it was)
+        Rng r2(sim::mix(seed, 0xba5eba5eull));
+        static const char *pct[] = { "app%3.log", "app%1.log", "100%.log", "%2%3", "a%4b.log.%3" };
+        if (r2.chance(1, 10))
+            p.base = pick(r2, pct);
+    }
     static const int Ls[] = { 0, 1, 2, 5, 16, 64, 64, 100, 100, 1000, 16383, 16384, 16385, 70000 };
     static const int Ns[] = { -1, 0, 0, 1, 2, 2, 3, 3, 4, 11, 12 };
     p.L = pick(r, Ls);
